@@ -49,10 +49,11 @@ def alloc_lengths(prog, cn, fld):
 
 def is_full_range(prog, ctx, fld, idx):
     """idx = element of range(L) with L an allocation length of self.<fld>, or enumerate index over the field"""
-    idx = strip_epochs(idx)
-    if idx[0] == "ix" and outer_field(idx[2]) == fld:
-        return True
-    if idx[0] != "it":
+    from ..expr import rowform
+    idx = strip_epochs(rowform(idx))
+    if idx[0] == "ix" and outer_field(idx[2]) == fld and idx[2][0] == "f":
+        return True  # enumerate(self.F) / zip(self.F, ...) / range(len(self.F))
+    if idx[0] not in ("it", "ix"):
         return False
     dom = idx[2]
     if not (dom[0] == "call" and dom[1] == ("g", "range") and len(dom[2]) == 1):
@@ -82,6 +83,12 @@ def mirror_component(atom):
             return x[2]
         if any(n[0] == "ret" and n[1].endswith(".hashes") for n in walk(x)) or \
                 any(n[0] == "call" and n[1][0] == "v" for n in walk(x)):
+            # the probe must be taken at the structure's own depth: an explicit smaller depth compares a prefix only
+            for n in walk(x):
+                if n[0] == "ret" and n[1].endswith(".hashes") and len(n[3]) > 2 and n[3][2] != C(None):
+                    return f"probe-hash at depth {nshow(n[3][2])} only"
+                if n[0] == "call" and n[1][0] == "v" and len(n[2]) >= 2 and n[2][1][0] == "c":
+                    return f"probe-hash at depth {nshow(n[2][1])} only"
             return "probe-hash"
         return nshow(x)
     return None
@@ -225,7 +232,8 @@ def similarity_components(prog, rep, rid, ctx):
                 return
         else:
             # single-expression form: and/or of comparisons
-            comps = {comp_of(x) for x in walk(rv)} - {None}
+            # ... possibly after early `return False` exits that already established some components as equal
+            comps = ({comp_of(x) for x in walk(rv)} - {None}) | eqs
             if not need <= comps:
                 rep.bad(rid, where, f"similarity ignores {sorted(need - comps)}", f"similarity compares only {sorted(comps)}", f.where())
                 return
